@@ -279,8 +279,19 @@ func (i ItemCollection) Equals(with Item) bool {
 			result = false
 			return nil
 		}
+		// every member is matched with a member of w that no earlier member was matched with: a member
+		// that occurs twice must occur twice in w
+		used := make([]bool, len(*w))
 		for _, it := range i {
-			if !w.Contains(it) {
+			found := false
+			for j, wit := range *w {
+				if !used[j] && ItemsEqual(wit, it) {
+					used[j] = true
+					found = true
+					break
+				}
+			}
+			if !found {
 				result = false
 				return nil
 			}
